@@ -369,6 +369,30 @@ PROPS["C18"] = {
     ],
 }
 
+PROPS["C17"] = {
+    "level": "exploration",
+    "rule": "two parts. histories: 2-14 requests (create, facts add/get/rem/search incl. inherited, query, rules add/list/enabled/"
+            "disable, ingest, size, parents) over locations la, lb and a never-created one, with 3 ms pauses before a quarter of the "
+            "requests, run through sys.System once per location-cache TTL in {forever, never, 1 ms} (x existence checking x state "
+            "drawn per case); the normalised result of every request must equal the TTL-forever run, and with existence checking a "
+            "request to a never-created location must fail, write nothing to storage and leave no cache entry; non-trivial = a "
+            "write followed, after a pause longer than the TTL, by a read of the same location. concurrent first requests: 2-16 "
+            "goroutines with generated spin delays issue their first request (a write) for one fresh location simultaneously; "
+            "afterwards every client's GetLocation must be the cached instance and every acknowledged write must be visible "
+            "through it; non-trivial = N >= 4. Distinct = distinct canonical JSON.",
+    "assumptions": COMMON_ASSUMPTIONS + [
+        "schedules of the concurrent part are sampled (spin delays, 16 cores), not enumerated: the defect found there showed up about once per 1000 bursts",
+        "'loads it once' is observed through instance identity and write visibility, not by counting storage loads (sys.System does not accept an injected storage)",
+        "a persistent no-op cron is used (a System refuses finite TTLs with an ephemeral cron)",
+    ],
+    "parts": [
+        {"name": "ttl-twins", "mode": "plain", "test": "TestC17",
+         "quick": {"checks": 500, "shards": 4}, "thorough": {"checks": 5000, "shards": 16}},
+        {"name": "concurrent-first", "mode": "plain", "test": "TestC17Concurrent",
+         "quick": {"checks": 2500, "shards": 4}, "thorough": {"checks": 40000, "shards": 8}},
+    ],
+}
+
 # Properties deliberately not claimed (reason shown in MANIFEST.not_applicable).
 NOT_APPLICABLE = {}
 
@@ -454,6 +478,11 @@ TEXT = {
         "technique": _PBT + "generated request scenarios rendered in six encodings x URI prefixes, differential against direct System calls on fresh engines; malformed-request classes must map to HTTP 400",
         "level_text": "Generated exploration of encodings, escaping and error classes; every response is parsed and compared with the direct call. Not a proof.",
         "level_note": "Trusted: the per-operation normalisers in props/c18_test.go; yaml.v2 to render YAML bodies.",
+    },
+    "C17": {
+        "technique": _PBT + "metamorphic: one generated request history replayed under every cache configuration must give identical results; generated concurrent bursts with an instance-identity / write-visibility oracle",
+        "level_text": "Generated exploration of request histories across cache TTLs and of concurrent first-request bursts. Not a proof; the concurrent part samples schedules.",
+        "level_note": "Trusted: result normalisers shared with C18; real time pauses of 3 ms vs a 1 ms TTL.",
     },
     "C05": {
         "technique": _PBT + "generated (pattern, data, bindings) vs independent brute-force matcher; substitution round-trip; metamorphic typed variants",
